@@ -231,7 +231,7 @@ class NInterp(sym.Interp):
         if name in LIST_PASS or name in ("row_iter", "column_iter", "column", "row", "set_column", "set_row", "enumerate", "skip", "take", "rev",
                                           "zip", "map", "len", "ncols", "nrows", "collect", "push", "norm", "norm_squared", "column_iter_mut",
                                           "row_iter_mut", "fill", "dot", "fold", "sum", "scale", "component_mul", "clone_owned", "into_owned", "back", "front",
-                                          "push_back", "pop_front", "clear", "is_empty", "clone", "copy_from", "range", "zip_map"):
+                                          "push_back", "pop_front", "clear", "is_empty", "clone", "copy_from", "range", "zip_map", "for_each"):
             recv = self.ev(n["recv"])
             r = self.container_method(n, name, recv)
             if r is not NotImplemented:
@@ -279,6 +279,8 @@ class NInterp(sym.Interp):
             if name == "nrows":
                 return sp.Integer(v.nrows)
         if isinstance(v, ColsVal):
+            if name in ("column_iter", "column_iter_mut"):
+                return list(v.cols)
             if name == "column":
                 i = self.ev(n["args"][0])
                 if not getattr(i, "is_Integer", False):
@@ -370,6 +372,13 @@ class NInterp(sym.Interp):
                 return acc
             if name == "sum":
                 return sum(v, sp.Integer(0))
+            if name == "for_each":
+                fn = n["args"][0]
+                if fn.get("k") != "Closure":
+                    raise sym.Unsupported(n, "for_each with %s" % pp(fn)[:40])
+                for x in v:
+                    self.apply_closure(sym.ClosureVal(fn, None), [x], n)
+                return None
             if name == "push":
                 v.append(self.ev(n["args"][0]))
                 return None
